@@ -25,6 +25,11 @@ var identSpecs = []identSpec{
 	{"I3", "bob", "descartes-fan"},
 	{"I4", "Zoé Unrelated", "zoe"},
 	{"I5", "Sean O'Neil", "sean"},
+	// names and logins whose ONLY capitals are non-ASCII (Latin-1, Cyrillic, Greek), and an
+	// all-lower-case one that is queried with capitals
+	{"I6", "Émile", "Ørsted"},
+	{"I7", "Дмитрий", "Überlauf"},
+	{"I8", "Ωμέγα", "zähler"},
 }
 
 // step is one action through the real cache (each one is committed on its own, so every step is
@@ -81,6 +86,14 @@ func popSpecs() []popSpec {
 		{Op: "new", Bug: "b9", By: "I5", Unix: 1080, Title: "can't reproduce", Msg: "lynx", Meta: map[string]string{"origin": "it's:here"}},
 		{Op: "labels", Bug: "b9", By: "I5", Unix: 1081, Add: []string{"it's"}},
 		{Op: "comment", Bug: "b1", By: "I5", Unix: 1082, Msg: "me neither"},
+		// titles whose only capitals are non-ASCII; author / commenter (participant) / closer (actor only) differ
+		{Op: "new", Bug: "b10", By: "I6", Unix: 1090, Title: "Überlauf im zähler", Msg: "lynx"},
+		{Op: "comment", Bug: "b10", By: "I7", Unix: 1091, Msg: "plain"},
+		{Op: "close", Bug: "b10", By: "I8", Unix: 1092},
+		{Op: "new", Bug: "b11", By: "I7", Unix: 1100, Title: "Дмитрий und Ωμέγα", Msg: "lynx"},
+		{Op: "comment", Bug: "b11", By: "I8", Unix: 1101, Msg: "plain"},
+		{Op: "labels", Bug: "b11", By: "I6", Unix: 1102, Add: []string{"prod"}},
+		{Op: "new", Bug: "b12", By: "I8", Unix: 1110, Title: "Émile trifft Ørsted", Msg: "lynx"},
 	}}}}
 
 	// Two replicas work independently (equal Lamport times), with unix stamps chosen so that equal
